@@ -598,3 +598,18 @@ Definition check_mode_hyps (m n : nat) (A : list (list Q)) (b : list Q) (ge gx :
   | Some ce, Some cx => mode_hyps_ok m n (qmat A) (qvec b) ce cx
   | _, _ => false
   end.
+
+(* the square-root precision a Gaussian DERIVES from its argument (dense Cholesky branch, or the eigen-decomposition branch
+   for dim > MIN_DIM_SPARSE): whatever factor R is stored, R^T R -- the precision logd and the gradients use -- must be the
+   inverse of the covariance compute_cov_model describes.  observed = R^T R formed by the harness from .sqrtprec *)
+Definition precision_model (p : gparam) (dim : nat) (c : covform) : option qm :=
+  match p with
+  | PPrec => Some (sq_of dim c)
+  | PSqrtprec => Some (qmatmul dim (qtranspose dim (sq_of dim c)) (sq_of dim c))
+  | _ => match compute_cov_model p dim c with Some C => qinv C | None => None end
+  end.
+Definition check_precision (dim : nat) (g : gdesc) (observed : list (list Q)) : bool :=
+  match precision_model (mk_param (gd_param g)) dim (mk_cov (gd_kind g) (gd_s g) (gd_v g) (gd_M g)) with
+  | Some P => qcll_close tol8 (qmat observed) P
+  | None => false
+  end.
